@@ -126,7 +126,7 @@ def draw_hazards(rng, tier):
         return {}
     hz = {}
     for k, p in (("dups", .4), ("blank", .4), ("crlf", .3), ("no_final_newline", .4), ("multibyte", .4),
-                 ("long", .2), ("diffish", .4), ("names", .4), ("indent", .4), ("uspace", .3), ("moves", .3)):
+                 ("long", .2), ("diffish", .4), ("names", .4), ("indent", .4), ("uspace", .3), ("moves", .3), ("twins", .3)):
         if rng.random() < p:
             hz[k] = True
     return hz
@@ -186,12 +186,20 @@ class C01(Prop):
                 who = rng.choice([HUMAN] + ex.sessions + ex.sessions)
                 tracked = ex.w.tracked_files(repo)
                 present = sorted(set(tracked) | set(st.setdefault("new_files", [])))
-                if (not present) or (rng.random() < 0.12 and len(present) < 6):
+                twin = None
+                if (not present) or (rng.random() < 0.12 and len(present) < 6) or \
+                        (hz.get("twins") and who != HUMAN and not st.get("twins_done") and rng.random() < 0.4):
                     pool = [p for p in gen.PLAIN_NAMES + (gen.HAZARD_NAMES if hz.get("names") else [])
                             if p not in present]
                     path = rng.choice(pool)
                     st["new_files"].append(path)
                     old = None
+                    if hz.get("twins") and who != HUMAN and not st.get("twins_done"):
+                        # the agent writes a second file with byte-identical content in the same report
+                        twin = "twin%d/%s" % (ex.fresh_id(), path.replace("/", "_"))
+                        st["new_files"].append(twin)
+                        st["twins_done"] = True
+                        ex.probe("twin_files")
                 else:
                     path = rng.choice(present)
                     old = ex.w.read(repo, path)
@@ -208,6 +216,8 @@ class C01(Prop):
                     new, desc = gen.mutate(rng, ex, old, who, hz, kinds=["delete"], max_block=10)
                 op = {"op": "edit", "who": who, "files": {path: new}, "desc": desc,
                       "dt": log_uniform_ms(rng), "dt2": rng.randint(1, 5000)}
+                if twin:
+                    op["files"][twin] = new
                 if cfg.get("clock") == "faulty" and rng.random() < 0.4:
                     op["dt"] = rng.choice([0, 0, -1, -5000, -86400000])      # tie / NTP step back / VM resume
                     ex.fault("clock.tie" if op["dt"] == 0 else "clock.jump_back")
